@@ -7,12 +7,15 @@ class P(vlib.Prop):
             "and a malformed stream (1-2 byte-level edits of valid strings incl. upper case, doubled dots, NUL, non-ASCII, newline); "
             "compare: corner pairs, the full pre x pre and post x post suffix grids, and pairs that differ in exactly one or two fields, each compared in both directions; "
             "constraint: constraints assembled from known parts (name, operator, version, pin) against neighbouring versions, plus operator runs and odd shapes; "
-            "resolve: raw ResolvePackageNameVersionPin on malformed constraint strings. Non-trivial = non-empty / a != b; distinct = distinct case terms.")
+            "resolve: raw ResolvePackageNameVersionPin on malformed constraint strings; "
+            "filter: one candidate (own version + provides) through the real filterPackages, the resolver's operator dispatch: equal versions spelled differently under every operator, "
+            "neighbouring versions, provided versions, malformed versions. Non-trivial = non-empty / a != b; distinct = distinct case terms.")
     stages = (
         dict(name="parse", cmd="c03", args=lambda t, s: ["-stage", "parse"]),
         dict(name="compare", cmd="c03", args=lambda t, s: ["-stage", "compare"]),
         dict(name="constraint", cmd="c03", args=lambda t, s: ["-stage", "constraint"]),
         dict(name="resolve", cmd="c03", args=lambda t, s: ["-stage", "resolve"]),
+        dict(name="filter", cmd="c03", args=lambda t, s: ["-stage", "filter"]),
     )
     assumptions = (
         "Go's regexp engine implements the language of the AST that regexp/syntax parses (the matcher in Base/Regex.v is verified against that AST's semantics, bytes instead of runes; goextract refuses classes where the two differ)",
@@ -25,7 +28,8 @@ class P(vlib.Prop):
                   "(partial), with the unconditional iff refuted by a witness (finding C03-F1). On STRINGS: every accepted version decodes to a spec tuple (c03_parsed_versions_decode); the relation "
                   "CompareVersions induces on accepted strings is a total preorder whose equivalence is 'same parsed version', not string equality - 1.01 ~ 1.1 (c03_preorder_on_strings, "
                   "c03_leading_zero_equivalent); SatisfiedBy on a constraint whose version parses is the spec's operator on the two tuples, ~ included, and from the constraint string for clean parts "
-                  "(c03_operators_on_strings, c03_tilde_on_strings, c03_constraint_string_is_spec, c03_satisfied_by_edges). Correspondence compares every parsed field, every comparison and every SatisfiedBy verdict.")
+                  "(c03_operators_on_strings, c03_tilde_on_strings, c03_constraint_string_is_spec, c03_satisfied_by_edges); the resolver's own dispatch filterPackages lets a candidate through exactly when its own or a provided version "
+                  "stands in the spec's relation to the required one, whatever the spelling (c03_filter_follows_order, c03_filter_own_version, c03_filter_edges). Correspondence compares every parsed field, every comparison and every SatisfiedBy verdict.")
     level_note = ("trusted: Coq kernel, goextract (regex AST, constants, switch tables), harness; modelled not verified: control flow of ParseVersion/CompareVersions/includesVersion/"
                   "ResolvePackageNameVersionPin (hand model, differential testing), Go regexp engine")
     modelled_not_verified = "version.go control flow is modelled by hand; constants, switch tables and regexes are regenerated"
